@@ -149,19 +149,54 @@ Theorem c05_none :
   (forall msg sig, none_verify msg sig = false).
 Proof. exact none_full. Qed.
 
-(* ---- histories: a call that is not a registration leaves the process state
-        unchanged; after any history without registrations every call gives the
-        verdict (and state) it gives in the initial state; in general the state
-        depends on the history only through its registrations ---- *)
+(* ---- histories.  The world holds the class tables, the two default registries and
+        every registry object the caller created (w_regs); a call is a function
+        world -> args -> verdict * world whose registry= argument is absent, an
+        object built for the call, or a reference into w_regs.
+        c05_history: after ANY history without registrations (constructions of new
+        registries and calls with per-call algorithms= overrides on shared registry
+        objects included) a call whose registry references exist in w gives the
+        verdict it gives in w, the class tables and default registries are the
+        same, and every registry object of w is still in place, unchanged.
+        c05_history_plain: without constructions the whole state is unchanged.
+        c05_history_effects_only: in general the state depends on the history only
+        through its registrations and constructions. ---- *)
 Theorem c05_history : forall h c w,
-  forallb (fun c => negb (is_register c)) h = true ->
-  run h w = w /\ step (run h w) c = step w c /\
-  verdicts h w = map (fun c => fst (step w c)) h.
+  no_registration h = true -> refs_ok w c = true ->
+  fst (step (run h w) c) = fst (step w c) /\
+  same_tables w (run h w) /\
+  (forall i o, nth_error (w_regs w) i = Some o -> nth_error (w_regs (run h w)) i = Some o).
 Proof. exact history_full. Qed.
 
-Theorem c05_history_registrations_only : forall h c w,
-  step (run h w) c = step (run (filter is_register h) w) c.
+Theorem c05_history_plain : forall h c w,
+  forallb is_plain h = true ->
+  run h w = w /\ step (run h w) c = step w c /\ verdicts h w = map (fun c => fst (step w c)) h.
+Proof. exact history_plain. Qed.
+
+Theorem c05_history_effects_only : forall h c w,
+  step (run h w) c = step (run (filter is_effect h) w) c.
 Proof. exact history_registers. Qed.
+
+(* the registry passed in (any registry object of the caller) is returned unchanged by
+   every call, by every history; calls other than a construction leave the whole
+   collection of registry objects as it is *)
+Theorem c05_registry_arg_unchanged :
+  (forall w c i o, nth_error (w_regs w) i = Some o -> nth_error (w_regs (snd (step w c))) i = Some o) /\
+  (forall h w i o, nth_error (w_regs w) i = Some o -> nth_error (w_regs (run h w)) i = Some o) /\
+  (forall w c, is_new c = false -> w_regs (snd (step w c)) = w_regs w).
+Proof. exact registry_arg_unchanged. Qed.
+
+(* non-vacuity: a shared JWERegistry(algorithms=[A128KW, A128GCM]) is used with a
+   one-off algorithms=[A192KW, A128GCM] (A192KW accepted for that call), afterwards
+   the registry alone accepts A128KW and refuses A192KW, and is unchanged *)
+Example c05_shared_registry_instance :
+  let h := [CallNewReg reg_a128;
+            CallJwe (PList [pname "A192KW"; pname "A128GCM"]) (RRef 0) (pname "A128GCM") [pname "A192KW"] None;
+            CallJwe PNone (RRef 0) (pname "A128GCM") [pname "A128KW"] None;
+            CallJwe PNone (RRef 0) (pname "A128GCM") [pname "A192KW"] None] in
+  verdicts h w0 = [VUnit (Ok tt); VUnit (Ok tt); VUnit (Ok tt); VUnit unsupported] /\
+  w_regs (run h w0) = [reg_a128].
+Proof. exact shared_registry_instance. Qed.
 
 (* ---- both algorithms= and registry= given (the property text does not order them):
         JWS entry points use the registry and ignore the list, JWE entry points use
@@ -263,7 +298,9 @@ Print Assumptions c05_entry_jwe_else.
 Print Assumptions c05_before_crypto.
 Print Assumptions c05_none.
 Print Assumptions c05_history.
-Print Assumptions c05_history_registrations_only.
+Print Assumptions c05_history_plain.
+Print Assumptions c05_history_effects_only.
+Print Assumptions c05_registry_arg_unchanged.
 Print Assumptions c05_both_given.
 Print Assumptions c05_empty_list_is_default.
 Print Assumptions c05_readings_coincide.
